@@ -792,10 +792,40 @@ let run_clk toks =
         | _ -> failwith ("bad clk op " ^ t)) ops)
   | _ -> failwith "bad clk case"
 
+(* fpb <device bytes> F<i,j,..> E<id>,<blocks> ... X ...  (Model.FailBatches: the pass over several
+   journal transactions) -> one line per flush *)
+let run_fpb toks =
+  match toks with
+  | dev :: faults :: ops ->
+    let fs0 = match FreeSpace.initialize (n_of_string dev) with FreeSpace.FOk s -> s | FreeSpace.FErr _ -> failwith "bad device size" in
+    let body = Stdlib.String.sub faults 1 (Stdlib.String.length faults - 1) in
+    let failing = Stdlib.List.map Z.of_string (Stdlib.List.filter (fun x -> x <> "") (Stdlib.String.split_on_char ',' body)) in
+    let fault i = Stdlib.List.exists (fun z -> Z.equal z (z_of_n i)) failing in
+    let st = ref (FailPath.finit fs0) in
+    let outs = ref [] in
+    Stdlib.List.iter (fun t ->
+        if t = "X" then begin
+          let (st', r) = FailBatches.pflush fault !st in
+          st := st';
+          let rstr = match r with FailPath.ROk -> "ok" | FailPath.RIo -> "io" | FailPath.RIndet -> "indet" | FailPath.RSpace -> "space" in
+          let f = (!st).FailPath.f_fs in
+          let durable = Stdlib.List.sort compare (Stdlib.List.map (fun (id, (s, _)) -> string_of_n id ^ ":" ^ string_of_n s) (!st).FailPath.f_durable) in
+          outs := Stdlib.Printf.sprintf "r=%s free=%s,%s,%s usage=%s durable=%s calls=%s" rstr
+              (string_of_n (FreeSpace.get_total_free f)) (string_of_n (FreeSpace.get_chunks f)) (string_of_n (FreeSpace.get_largest f))
+              (string_of_n (!st).FailPath.f_usage) (Stdlib.String.concat "," durable) (string_of_n (!st).FailPath.f_calls) :: !outs
+        end else begin
+          let body = Stdlib.String.sub t 1 (Stdlib.String.length t - 1) in
+          match t.[0], Stdlib.String.split_on_char ',' body with
+          | 'E', [id; blocks] -> st := FailPath.enqueue !st (n_of_string id) (n_of_string blocks)
+          | _ -> failwith ("bad failpath op " ^ t)
+        end) ops;
+    Stdlib.String.concat " | " (Stdlib.List.rev !outs)
+  | _ -> failwith "bad failpath case"
+
 let run_note _ = "note"
 
 let handlers : (string * (string list -> string)) list ref =
-  ref [ ("fs", run_fs); ("open", run_open); ("note", run_note); ("codec", run_codec); ("readdev", run_readdev); ("lww", run_lww); ("monitor", run_monitor); ("cache", run_cache); ("migrate", run_migrate); ("conc", run_conc); ("hist", run_hist); ("pins", run_pins); ("inflight", run_inflight); ("swp", run_swp); ("scn", run_scn); ("abuf", run_abuf); ("fp", run_fp); ("gate", run_gate); ("cgen", run_cgen); ("clk", run_clk) ]
+  ref [ ("fs", run_fs); ("open", run_open); ("note", run_note); ("codec", run_codec); ("readdev", run_readdev); ("lww", run_lww); ("monitor", run_monitor); ("cache", run_cache); ("migrate", run_migrate); ("conc", run_conc); ("hist", run_hist); ("pins", run_pins); ("inflight", run_inflight); ("swp", run_swp); ("scn", run_scn); ("abuf", run_abuf); ("fp", run_fp); ("gate", run_gate); ("cgen", run_cgen); ("clk", run_clk); ("fpb", run_fpb) ]
 
 
 let () =
